@@ -1,0 +1,6 @@
+//go:build !verif
+// +build !verif
+
+package node
+
+func verifGate(point string) {}
